@@ -146,7 +146,7 @@ Proof. vm_compute. reflexivity. Qed.
 From AV.Model Require Import Interp.
 From AV.Spec Require Import WorldSpec.
 From AV.Proofs Require Import NoFault WorldProofs.
-(** WHOLE HISTORIES.  [WorldSpec.spec_run] gives a script its meaning directly on lists (std::vec::Vec semantics: a world of vectors, fresh identities, which values the destructor runs on); [Interp.run_step] is the byte-level machine the harness's trace is compared with.  For EVERY list of operations of the fragment (new, with_capacity, push, insert - every fresh-value source kind, lazy clones of elements and removal handles of other vectors, typed and erased path -, pop / remove / swap_remove with the handle dropped, downcast, forgotten or moved by push or insert into ANOTHER vector, clear, get, at, vector drop, reserve / reserve_exact / shrink_to_fit / shrink_to, drain and splice with any range and consumption pattern, clone / clone_empty / clone_empty_in, iter / iter_mut with any call pattern, cloned iterators, nth / nth_back, element handles read, written and swapped, type probes, refused wrong-type swap, wrong-typed values offered to push / insert, refused downcasts of removal handles; any number of vectors; every element size incl. 0, every backend kind incl. fixed capacity and the relocating backend with prebuilt capacity), every step's outcome, panic kind, returned values and user-code events are the specification's, the machine state represents the specification's lists afterwards (typed snapshot = list), and no step faults.  Hypothesis [Admissible]: at each growth the allocator can serve the request (decidable: [Admissibleb]); non-vacuity: [ex_admissible], [ex_spec_defined] on a 99-step history through every case. *)
+(** WHOLE HISTORIES.  [WorldSpec.spec_run] gives a script its meaning directly on lists (std::vec::Vec semantics: a world of vectors, fresh identities, which values the destructor runs on); [Interp.run_step] is the byte-level machine the harness's trace is compared with.  For EVERY list of operations of the fragment (new, with_capacity, push, insert - every fresh-value source kind, lazy clones of elements and removal handles of other vectors, typed and erased path -, pop / remove / swap_remove with the handle dropped, downcast, forgotten or moved by push or insert into ANOTHER vector - possibly after a new value was written through it or lazy clones of it were downcast, nested to any depth ([WorldSpec.sp_sink]) -, clear, get, at, vector drop, reserve / reserve_exact / shrink_to_fit / shrink_to, drain and splice with any range and consumption pattern, clone / clone_empty / clone_empty_in, iter / iter_mut with any call pattern, cloned iterators, nth / nth_back, element handles read, written and swapped, type probes, refused wrong-type swap, wrong-typed values offered to push / insert, refused downcasts of removal handles; any number of vectors; every element size incl. 0, every backend kind incl. fixed capacity and the relocating backend with prebuilt capacity), every step's outcome, panic kind, returned values and user-code events are the specification's, the machine state represents the specification's lists afterwards (typed snapshot = list), and no step faults.  Hypothesis [Admissible]: at each growth the allocator can serve the request (decidable: [Admissibleb]); non-vacuity: [ex_admissible], [ex_spec_defined] on a 103-step history through every case. *)
 (** one script step *)
 Theorem C01_step_refines :
   forall (c : cfg) (w : world) (st : astate) (o : op) (r : sres),
@@ -215,6 +215,34 @@ Theorem C01_handle_sources_in_histories :
            ((do o <- make_offer c (STemp src k sidx); offer_into c v o (raw_action c idx);; ret (0, [])) w) r.
 Proof. exact exec_offer_temp. Qed.
 
+(** what is done with a removal handle, by induction over the nesting of the sink *)
+Theorem C01_sinks_in_histories :
+  forall (c : cfg) (a : api) (sk : sink) (w : world) (st : astate) (vid : nat) 
+           (av : avec) (k : tkind) (i : nat) (vv : vec) (h : temp) (r : sres),
+         cfg_wf c ->
+         WRep c w st ->
+         get_a vid st = Some av ->
+         temp_req k i (a_xs av) ->
+         get_vec vid w = Some vv ->
+         VI c vv av ->
+         temp_for c vv (a_xs av) k i h ->
+         ufuse (wuw w) = None ->
+         (forall d : nat, In d (sink_dsts sk) -> d <> vid -> adm_vec c w d) ->
+         sp_sink c st (unext (wuw w)) vid av k i sk = Some r ->
+         match
+           apply_sink c vid (known_of a) h sk (put_vec vid (Some (with_len (N.of_nat i) vv)) (wuw w) w)
+         with
+         | Ok rets w2 =>
+             s_out r = 0 /\
+             s_pk r = 0 /\ s_ret r = rets /\ step_ok c w w2 (s_st r) (s_evs r) (s_nx r - unext (wuw w))
+         | Panic p w2 =>
+             s_out r = 2 /\
+             s_pk r = panic_code p /\
+             s_ret r = [] /\ step_ok c w w2 (s_st r) (s_evs r) (s_nx r - unext (wuw w))
+         | Fault _ => False
+         end.
+Proof. exact sink_spec. Qed.
+
 (* ---- end histories ---- *)
 Print Assumptions C01_snapshot.
 Print Assumptions C01_new.
@@ -241,3 +269,4 @@ Print Assumptions C01_admissibility_decidable.
 Print Assumptions C01_example_admissible.
 Print Assumptions C01_example_spec_defined.
 Print Assumptions C01_handle_sources_in_histories.
+Print Assumptions C01_sinks_in_histories.
